@@ -616,6 +616,12 @@ func c08ControlWriter(r *eng.Run) {
 	bufLen := 0
 	if r.T.Bool(sim.LCfg) {
 		r.SetEntry("NewControlWriter")
+		if r.T.Chance(sim.LSize, 1, 3) {
+			// The application has tuned the package-level default buffer size
+			// (put back at the start of the next run).
+			wsutil.DefaultWriteBuffer = []int{16, 64, 100, 124, 126, 200, 1024, 70000}[r.T.Int(sim.LSize, 8)]
+			r.Probe("default_write_buffer_tuned")
+		}
 		cw = wsutil.NewControlWriter(dst, st, ws.OpCode(op))
 	} else {
 		r.SetEntry("NewControlWriterBuffer")
